@@ -70,7 +70,7 @@ class SideEffectFormulaGen(gen_formula.FormulaGen):
 
 def plan(tier, seed):
   n, steps, k = (16, 30, 7) if tier == 'quick' else (128, 60, 9)
-  return [{'scenario': 'derived'}, {'scenario': 'summary'}] + \
+  return [{'scenario': 'group_evaluation'}, {'scenario': 'derived'}, {'scenario': 'summary'}] + \
          [{'hseed': seed * 100003 + 29000 + i, 'steps': steps, 'calls': k} for i in range(n)]
 
 
@@ -250,6 +250,21 @@ class CallGen(object):
 
 
 # ------------------------------------------------------------------------------------------------ monitor
+def group_evaluation(m, name, wire):
+  """The trigger of the open finding auto_remove_left_by_group_evaluation: get_formula_error / evaluate_formula on a column
+  whose formula calls DocModel.setAutoRemove: the `group` column of a summary table, the setAutoRemove helper columns of
+  the metadata tables."""
+  if name not in ('evaluate_formula', 'get_formula_error') or len(wire) < 2 or not isinstance(wire[0], str) or not isinstance(wire[1], str):
+    return False
+  if wire[0].startswith('_grist_'):
+    return 'setAutoRemove' in wire[1]
+  return wire[1] == 'group' and wire[0] in m.tables and bool(m.tables[wire[0]]['summary'])
+
+
+def only_removals_of(stored, table_id):
+  return bool(stored) and all(a[0] in ('RemoveRecord', 'BulkRemoveRecord') and a[1] == table_id for a in stored)
+
+
 class ReadOnlyMonitor(histories.Monitor):
   MUTATES = True
 
@@ -314,11 +329,19 @@ class ReadOnlyMonitor(histories.Monitor):
                   dict(detail, diff=d))
     r, err = h.apply([['Calculate']], 'calc-after-read')
     if err is not None:
+      if group_evaluation(self.gen.m, name, wire) and err.cls == 'TypeError' and not d:
+        # Open finding auto_remove_left_by_group_evaluation (witness: scenario_group_evaluation). The failed Calculate
+        # has emptied the pending-removal set, so the history goes on.
+        h.violation('auto_remove_left_by_group_evaluation', 'Calculate after %s%s raised %s' % (name, snapshot._short(wire, 200), err.cls), detail)
+        return h.snap()
       h.violation('calculate_raises:' + name, 'Calculate after %s%s raised %s' % (name, snapshot._short(wire, 200), err.text[:300]), detail)
       return None
     S2 = h.snap()
     if r.stored or r.undo:
-      if not d and self.twin_also_emits(h, r):
+      if not d and group_evaluation(self.gen.m, name, wire) and only_removals_of(r.stored, wire[0]):
+        h.violation('auto_remove_left_by_group_evaluation', 'Calculate after %s%s emitted %s' % (name, snapshot._short(wire, 200),
+                    snapshot._short(r.stored[:3], 300)), dict(detail, stored=r.stored[:8]))
+      elif not d and self.twin_also_emits(h, r):
         acc.count('calculate_emits_without_read_call')
       else:
         h.violation('calculate_emits:' + name, 'Calculate after %s%s emitted %s' % (name, snapshot._short(wire, 200),
@@ -398,8 +421,11 @@ def scenario_summary(acc):
     for st in ('T_summary_A', 'T_summary_B', 'T_summary'):
       for c in ('group', 'count', 'Tot'):
         for row in (1, 0, 9):
+          if c == 'group' and row != 1:
+            continue            # `group` of a row without source records: open finding, see scenario_group_evaluation
           calls.append(['get_formula_error', st, c, row])
-          calls.append(['evaluate_formula', st, c, row])
+          if c != 'group':      # evaluate_formula on `group`: the same open finding
+            calls.append(['evaluate_formula', st, c, row])
       calls.append(['autocomplete', '$group.', st, 'count', 'new', USER])
       calls.append(['autocomplete', '$', st, 'group', 1, USER])
       calls.append(['get_formula_prompt', st, 'count'])
@@ -407,6 +433,45 @@ def scenario_summary(acc):
     calls += [['find_col_from_values', ['x', 'y'], 2, 'T_summary_A'], ['find_col_from_values', ['x', 'y'], 0, None],
               ['autocomplete', 'T_summary_A.lookupRecords(', 'T', 'S', 1, USER], ['autocomplete', 'T_summary_A.', 'T', 'S', 'new', USER]]
     run_scenario(acc, p, 'summary', calls)
+
+
+def scenario_group_evaluation(acc):
+  """Witness of the open finding auto_remove_left_by_group_evaluation: evaluate_formula(<summary table>, 'group', row)
+  evaluates getSummarySourceGroup with the AttributeRecorder wrapper in place of the record; the lookup by the wrapper
+  finds nothing, so the wrapper is put into DocModel._auto_remove_set (a side effect outside the action log, which the
+  undo-to-checkpoint of get_formula_value cannot revert) and the next bundle fails in apply_auto_removes."""
+  with EngineProc() as p:
+    p.init_doc()
+    p.apply([['AddTable', 'T', [{'id': 'A', 'type': 'Text', 'isFormula': False}]]])
+    p.apply([['BulkAddRecord', 'T', [None, None], {'A': ['x', 'y']}]])
+    p.apply([['CreateViewSection', 1, 0, 'record', [2], None]])
+    S0 = snapshot.take(p)
+    acc.count('witness_runs')
+    try:
+      p.call('evaluate_formula', 'T_summary_A', 'group', 1)
+    except EngineError:
+      return
+    d = snapshot.diff(S0, snapshot.take(p))
+    r, err = p.try_apply([['Calculate']])
+    if err is not None and err.cls == 'TypeError' and not d:
+      acc.violation('auto_remove_left_by_group_evaluation', 'witness: Calculate after evaluate_formula(T_summary_A, group, 1) raised %s' % err.cls,
+                    {'error': err.text[:300]})
+    elif err is not None or d or r.stored:
+      acc.violation('calculate_raises:evaluate_formula', 'witness history: %s %s %s' % (err and err.text[:200], d[:2], r and r.stored[:2]), {})
+      return
+    # Second trigger: the group of a row that has no source records (here: a row id the table does not have).
+    S0 = snapshot.take(p)
+    try:
+      p.call('get_formula_error', 'T_summary_A', 'group', 9)
+    except EngineError:
+      return
+    d = snapshot.diff(S0, snapshot.take(p))
+    r, err = p.try_apply([['Calculate']])
+    if err is None and not d and only_removals_of(r.stored, 'T_summary_A'):
+      acc.violation('auto_remove_left_by_group_evaluation', 'witness: Calculate after get_formula_error(T_summary_A, group, 9) emitted %s' % r.stored[:2],
+                    {'stored': r.stored})
+    elif err is not None or d or r.stored:
+      acc.violation('calculate_emits:get_formula_error', 'witness history: %s %s %s' % (err and err.text[:200], d[:2], r and r.stored[:2]), {})
 
 
 def run_scenario(acc, p, name, calls):
